@@ -400,11 +400,16 @@ def rule_r4(repo):
             if text in ('nested_json_to_flat_json', 'nested_text_to_flat_json', 'flat_text_to_flat_json', 'json.loads'):
                 self.event('convert', text)
                 return Sym('DATA:' + text)
-            if text in ('Encoder', 'open', 'sys.stdin.read', 'ins.read'):
+            if text == 'Encoder':
+                it = self
+
+                def process(interp, a, kw, node, frame):
+                    it.event('encode', repr(a[0]) if a else None)
+                    return Obj('BufrMessageStub', {'serialized_bytes': Sym('BYTES')})
+                from sa.patheval import Stub
+                return Stub('encoder', {'process': process})
+            if text in ('open', 'sys.stdin.read', 'ins.read'):
                 return Top(text)
-            if text == 'encoder.process':
-                self.event('encode', repr(args[0]) if args else None)
-                return Obj('BufrMessageStub', {'serialized_bytes': Sym('BYTES')})
             return self.NOT_HANDLED
 
         def on_with(self, node, frame):
